@@ -210,6 +210,14 @@ def run(task: Task, seed=0, tier="quick"):
     except Exception as ex:  # noqa: BLE001 - checker fault, reported as such (exit 3), never as a violation
         res["error"] = f"checker fault: {type(ex).__name__}: {ex}"
         res["trace"] = traceback.format_exc()[-3000:]
+    if res.get("error") and not res.get("shared_writes"):
+        # the run stopped early: still report the shared writes of the path that was being executed
+        sw = set()
+        for w in I.writes:
+            if w.get("shared"):
+                sw.add((w["target"], w.get("attr", w.get("key", "")), w["where"], w["line"],
+                        w.get("file", "?"), w.get("abs_line", 0)))
+        res["shared_writes"] = sorted(sw)
     res["functions"] = {k: list(v) for k, v in I.functions_seen.items()}
     res["files"] = dict(I.files_seen)
     res["havoc"] = sorted(set(I.havoc_log))
